@@ -26,6 +26,9 @@ holes) do not special-case field kinds; a cursor assignment made of generated te
 
 Round 5: (g) util.SeekableFile answers raw[a:b] from the file at its own position, or from a
 remembered block only under a guard on the end of the request; the driver-hole rule of C03-a'.
+
+Round 6: the whole input handed to a buffer-protocol consumer (unpack_from, memoryview); a
+cursor returned by the previous child is the current cursor.
 """
 import ast
 
